@@ -1,8 +1,34 @@
 (* C04 - OpenMetrics exposition and parser are mutually inverse.  Statements only (layered; see DESIGN.md 7/C04). *)
-From V Require Import lib.PyBase lib.PyStr model.Validation model.Expo model.TextParser proofs.EscapeProofs.
+From V Require Import lib.PyBase lib.PyStr model.Validation model.Expo model.TextParser proofs.EscapeProofs proofs.LabelRoundTrip.
 Open Scope N_scope.
 
 (* label values, exemplar label values, quoted names: the shared unescaping inverts the shared escaping *)
 Theorem C04_L1_unescape_escape : forall s, replace_escaping (escape_chain s) = s.
 Proof. exact (fun s => eq_trans (f_equal replace_escaping (escape_chain_eq s)) (unescape_escape s)). Qed.
 Print Assumptions C04_L1_unescape_escape.
+
+(* L2: a quoted, escaped string is skipped as a whole by the quote-aware scanner, whatever it contains *)
+Theorem C04_L2_quoted_scan : forall chs v rest, mem_char DQ chs = false ->
+  ScanFacts.nuq0 chs (quote (escape v) ++ rest) false false
+  = option_map (fun k => (length (quote (escape v)) + k)%nat) (ScanFacts.nuq0 chs rest false false)
+  /\ ScanFacts.st_after (quote (escape v)) false false = (false, false).
+Proof. exact quoted_scan. Qed.
+Print Assumptions C04_L2_quoted_scan.
+
+(* L3: the label block both expositions write - names bare when legacy, quoted and escaped otherwise, values
+   quoted and escaped, sorted, comma-separated - is read back by parse_labels exactly and in order, for ALL label
+   names and values (keys distinct, not reserved '__...', as the constructors guarantee) *)
+Theorem C04_L3_labels_roundtrip : forall labels,
+  Forall key_ok (map fst labels) -> NoDup (map fst labels) ->
+  parse_labels false true (labelstr labels) false = Ok (sort_kv labels).
+Proof. exact labelstr_roundtrip. Qed.
+Print Assumptions C04_L3_labels_roundtrip.
+
+Example C04_L3_nonvacuous :
+  let labels := [([LF; DQ; BS], [DQ; BS; LF; COMMA; RBRACE; EQS]); (s2l "le", s2l "+Inf")] in
+  Forall key_ok (map fst labels) /\ NoDup (map fst labels) /\
+  parse_labels false true (labelstr labels) false = Ok (sort_kv labels).
+Proof.
+  cbv zeta. split; [repeat constructor|]. split; [|vm_compute; reflexivity].
+  constructor; [intros [H|[]]; discriminate|]. constructor; [intros []|constructor].
+Qed.
